@@ -737,6 +737,24 @@ func (env *SpecEnv) call(c *ast.CallExpr) Val {
 		case "sameelems": // sameelems(s, t): same length and pointwise equal scalar elements
 			a, b := env.expr(c.Args[0]), env.expr(c.Args[1])
 			return boolVal(env.sameElems(a, b))
+		case "samebytes": // samebytes(dst, doff, src, soff, n): dst[doff+k] == src[soff+k] for 0 <= k < n; src may be old(...)
+			d, doff := env.expr(c.Args[0]), env.expr(c.Args[1])
+			senv := env
+			sa := c.Args[2]
+			if ce, ok := sa.(*ast.CallExpr); ok {
+				if id, ok := ce.Fun.(*ast.Ident); ok && id.Name == "old" && env.old != nil {
+					senv = env.with(env.old)
+					sa = ce.Args[0]
+				}
+			}
+			sv, soff, n := senv.expr(sa), env.expr(c.Args[3]), env.expr(c.Args[4])
+			fc.nq++
+			k := fmt.Sprintf("q%d_k", fc.nq)
+			innerD := tSel(fc.elemArray(env.st, d), d.Arr)
+			innerS := tSel(fc.elemArray(senv.st, sv), sv.Arr)
+			lo := tAdd(d.Off, doff.S)
+			env.quant = true
+			return boolVal("(forall ((" + k + " Int)) (! (=> (and (<= " + lo + " " + k + ") (< " + k + " (+ " + lo + " " + n.S + "))) (= (select " + innerD + " " + k + ") (select " + innerS + " (+ (- " + k + " " + lo + ") " + tAdd(sv.Off, soff.S) + ")))) :pattern ((select " + innerD + " " + k + "))))")
 		case "u8at": // u8at(s, i): byte i of slice s
 			s, i := env.expr(c.Args[0]), env.expr(c.Args[1])
 			fc.byteAxiom(fc.elemArray(env.st, s))
@@ -801,12 +819,19 @@ func (env *SpecEnv) call(c *ast.CallExpr) Val {
 			var as []string
 			var sorts []string
 			for i, a := range c.Args {
-				v := env.expr(a)
+				aenv := env
+				if ce, ok := a.(*ast.CallExpr); ok {
+					if id, ok := ce.Fun.(*ast.Ident); ok && id.Name == "old" && env.old != nil {
+						aenv = env.with(env.old) // old(bytes): contents as they were at entry
+						a = ce.Args[0]
+					}
+				}
+				v := aenv.expr(a)
 				if i < len(g.Params) && g.Params[i] == "bytes" {
 					if v.K != KSlice {
 						env.fail("ghost %s: argument %d must be a byte slice", g.Name, i)
 					}
-					as = append(as, tSel(fc.elemArray(env.st, v), v.Arr), v.Off, v.Len)
+					as = append(as, tSel(fc.elemArray(aenv.st, v), v.Arr), v.Off, v.Len)
 					continue
 				}
 				switch v.K {
